@@ -151,7 +151,8 @@ class BaseProperty(base.BaseObject):
 
         self._dtype = None
         if dtypes.valid_type(dtype):
-            self._dtype = dtype
+            # valid_type ignores case; store the spelling all other code compares with.
+            self._dtype = dtype.lower() if dtype is not None else None
         else:
             print("Warning: Unknown dtype '%s'." % dtype)
 
@@ -268,6 +269,9 @@ class BaseProperty(base.BaseObject):
         # check if this is a valid type
         if not dtypes.valid_type(new_type):
             raise AttributeError("'%s' is not a valid type." % new_type)
+        # valid_type ignores case; store the spelling all other code compares with.
+        if new_type is not None:
+            new_type = new_type.lower()
         # we convert the value if possible
         old_type = self._dtype
         old_values = self._values
